@@ -74,3 +74,53 @@ def run(unit, em):
                 em.violation(recs[0], txt, 'the loop records an element per iteration into a container declared outside it, but its body ends in an unconditional `break`: only the first element is ever recorded, the others are silently dropped', 'once')
             else:
                 em.ok(recs[0], txt, 'the collecting loop runs over all elements', 'once')
+        # ---- take-while: a collecting iterator loop whose condition also tests the current element
+        from vfacts import conjuncts
+        for lp in fn.walk():
+            if lp['k'] != 'ForStmt' or not is_node(lp.get('body')) or not is_node(lp.get('c')):
+                continue
+            cj = conjuncts(lp['c'], True)
+            if len(cj) < 2:
+                continue
+            # loop variable(s): declared in the init statement
+            lvars = {d['d'] for x in walk(lp.get('init')) if x['k'] == 'DeclStmt' for d in x.get('decls', [])} if is_node(lp.get('init')) else set()
+            if not lvars:
+                continue
+            bound, extra = [], []
+            for pol, atom in cj:
+                a = strip(atom)
+                is_bound = False
+                if a is not None and a['k'] in ('BinaryOperator', 'CXXOperatorCallExpr') and a.get('op') in ('!=', '<', '<=', '>', '>='):
+                    ops = a.get('ch') if a['k'] == 'BinaryOperator' else a.get('args')
+                    if ops and len(ops) == 2:
+                        for x, y in ((ops[0], ops[1]), (ops[1], ops[0])):
+                            sx = strip(x)
+                            if sx is not None and sx['k'] == 'DeclRefExpr' and sx.get('d') in lvars and any(
+                                    m['k'] == 'CXXMemberCallExpr' and method_name(m) in ('end', 'cend', 'size', 'rend', 'crend') for m in walk(y)):
+                                is_bound = True
+                (bound if is_bound else extra).append((pol, atom))
+            if not bound or not extra:
+                continue
+            elem_tests = [(pol, atom) for pol, atom in extra if any(m['k'] == 'DeclRefExpr' and m.get('d') in lvars for m in walk(atom))]
+            if not elem_tests:
+                continue
+            inner = {d['d'] for x in walk(lp) if x['k'] == 'DeclStmt' for d in x.get('decls', [])}
+            records = []
+            for c in walk(lp['body'], lambdas=False):
+                if c['k'] == 'CXXMemberCallExpr' and not c.get('const') and (method_name(c) in ('push_back', 'emplace_back', 'insert', 'emplace') or c.get('inrepo')):
+                    base = strip(c.get('obj'))
+                    while base is not None and base['k'] == 'MemberExpr' and (base.get('ch') or base.get('obj')):
+                        base = strip(base['ch'][0] if base.get('ch') else base.get('obj'))
+                    if base is not None and ((base['k'] == 'DeclRefExpr' and base.get('d') not in inner) or base['k'] == 'CXXThisExpr'):
+                        records.append(c)
+            if not records:
+                continue
+            pol, atom = elem_tests[0]
+            a = strip(atom)
+            relational = a is not None and a['k'] in ('BinaryOperator', 'CXXOperatorCallExpr') and a.get('op') in ('<', '<=', '>', '>=')
+            txt = unit.text(lp['c'], 80)
+            if relational:
+                em.ok(lp, txt, 'prefix of an ordered range (relational bound on the element)', 'takewhile')
+            else:
+                em.violation(lp, txt, 'the loop records elements into %s but its condition also tests the current element (`%s`): it stops at the first element that fails the test instead of skipping it, so later elements that pass are never recorded' % (
+                    unit.text(strip(records[0].get('obj')), 30), unit.text(atom, 50)), 'takewhile')
